@@ -508,7 +508,7 @@ func (cs *Contracts) ParseContractFile(path string, pkgName string, isSpec bool)
 		line int
 	}
 	var lines []lline
-	heads := []string{"func ", "type ", "spec ", "dead ", "forbid_method", "axiom ", "lemma ", "global ", "props ", "arith ", "requires", "ensures", "trusted_ensures", "assigns", "writes", "loop ", "pure", "trusted", "trustframe", "noglobals", "validator", "errors_propagated", "constructor", "unbounded_alloc", "noinline", "fresh ", "note ", "assert", "invariant ", "invariant[", "guarded_by ", "owns ", "immutable", "decreases ", "ghost ", "lastcall ", "allocbound "}
+	heads := []string{"func ", "type ", "spec ", "dead ", "forbid_tags", "forbid_method", "axiom ", "lemma ", "global ", "props ", "arith ", "requires", "ensures", "trusted_ensures", "assigns", "writes", "loop ", "pure", "trusted", "trustframe", "noglobals", "validator", "errors_propagated", "constructor", "unbounded_alloc", "noinline", "fresh ", "note ", "assert", "invariant ", "invariant[", "guarded_by ", "owns ", "immutable", "decreases ", "ghost ", "lastcall ", "allocbound "}
 	for i, raw := range strings.Split(string(data), "\n") {
 		s := strings.TrimSpace(raw)
 		if !strings.HasPrefix(s, "//@") {
@@ -613,9 +613,15 @@ func (cs *Contracts) ParseContractFile(path string, pkgName string, isSpec bool)
 				sf.Body = e
 			}
 			cs.Specs[sf.Name] = sf
-		case strings.HasPrefix(s, "forbid_method"):
+		case strings.HasPrefix(s, "forbid_method"), strings.HasPrefix(s, "forbid_tags"):
 			// forbid_method[Cxx] <Type> <Method>: <reason>
+			// forbid_tags[Cxx] <Type>: <reason>   (no field but the last of the struct type carries a struct tag: its wire form is
+			// the default one that the assumed codec contracts speak about)
+			tagsForm := strings.HasPrefix(s, "forbid_tags")
 			rest := strings.TrimSpace(s[len("forbid_method"):])
+			if tagsForm {
+				rest = strings.TrimSpace(s[len("forbid_tags"):])
+			}
 			var props []string
 			if strings.HasPrefix(rest, "[") {
 				i := strings.Index(rest, "]")
@@ -629,6 +635,9 @@ func (cs *Contracts) ParseContractFile(path string, pkgName string, isSpec bool)
 				reason, rest = strings.TrimSpace(rest[i+1:]), strings.TrimSpace(rest[:i])
 			}
 			f := strings.Fields(rest)
+			if tagsForm && len(f) == 1 {
+				f = append(f, "")
+			}
 			if len(f) != 2 {
 				cs.Errors = append(cs.Errors, src+": bad forbid_method clause")
 				continue
